@@ -48,6 +48,9 @@ var c05Grid = func() []opnd {
 		opnd{kind: "bool", name: "true", has: true, doc: true, lit: func() Expr { return &BoolLit{V: true} }},
 		opnd{kind: "bool", name: "false", has: true, doc: false, lit: func() Expr { return &BoolLit{V: false} }},
 		opnd{kind: "null", name: "null", has: true, doc: nil, lit: func() Expr { return &NullLit{} }},
+		opnd{kind: "null", name: "missing-member", nov: true, lit: func() Expr { return Mem(V("$"), "zz") }},
+		opnd{kind: "null", name: "index-past-end", nov: true, lit: func() Expr { return Idx(Mem(V("$"), "arr9"), N("3")) }},
+		opnd{kind: "null", name: "missing-deep", nov: true, lit: func() Expr { return Mem(Mem(Mem(V("$"), "zz"), "y"), "x") }},
 		opnd{kind: "unset", name: "unset", nov: true, lit: func() Expr { return V("u") }},
 		opnd{kind: "array", name: "[]", has: true, doc: []any{}, lit: func() Expr { return Arr() }},
 		opnd{kind: "array", name: "[1]", has: true, doc: []any{1.0}, lit: func() Expr { return Arr(N("1")) }},
@@ -79,6 +82,21 @@ func c05Fn() *Func {
 	return &Func{Name: "f", Params: nil, Body: Blk(&Return{X: N("1")})}
 }
 
+// c05OpFuncs: opf<i>(l, r) applies binary operator i at ONE expression site, so that a batch
+// evaluates the same site with many different operand pairs (per-site caches would show).
+func c05OpFuncs() []any {
+	var out []any
+	for i, op := range c05BinOps {
+		out = append(out, &Func{Name: fmt.Sprintf("opf%d", i), Params: []string{"l", "r"}, Body: Blk(&Return{X: Bin(op, V("l"), V("r"))})})
+	}
+	return out
+}
+
+func c05Items(body []Stmt) []any {
+	items := append([]any{c05Fn()}, c05OpFuncs()...)
+	return append(items, &Rule{Kind: "pattern", Body: &Block{Stmts: body}})
+}
+
 // supply builds the operand expression in the given mode (0 literal, 1 variable, 2 field).
 func supply(o opnd, mode int, vname string, setup *[]Stmt, doc map[string]any) (Expr, bool) {
 	switch mode {
@@ -107,7 +125,7 @@ func docBytes(doc map[string]any) []byte {
 // runExprs evaluates every expression in the model alone to find predicted errors,
 // batches the rest and runs everything through m2.
 func c05RunExprs(c *Case, exprs []c05Expr) {
-	doc := map[string]any{}
+	doc := map[string]any{"arr9": []any{7.0, 8.0}}
 	var batch []Stmt
 	var members [][]Stmt
 	var ids []string
@@ -115,7 +133,7 @@ func c05RunExprs(c *Case, exprs []c05Expr) {
 		if len(batch) == 0 {
 			return
 		}
-		p := &Program{Items: []any{c05Fn(), &Rule{Kind: "pattern", Body: &Block{Stmts: batch}}}}
+		p := &Program{Items: c05Items(batch)}
 		r := m2(c, &M2Case{Prog: p, Files: []InFile{{Name: "in.json", Data: docBytes(doc)}}, Budget: 50000, Desc: "operator batch", Quiet: true})
 		if r.Verdict == "held" {
 			for range members {
@@ -124,7 +142,7 @@ func c05RunExprs(c *Case, exprs []c05Expr) {
 		} else {
 			// some expression of the batch disagrees: give each its own verdict
 			for k, stm := range members {
-				p := &Program{Items: []any{c05Fn(), &Rule{Kind: "pattern", Body: &Block{Stmts: stm}}}}
+				p := &Program{Items: c05Items(stm)}
 				m2(c, &M2Case{Prog: p, Files: []InFile{{Name: "in.json", Data: docBytes(doc)}}, Budget: 50000, Desc: "operator " + ids[k]})
 			}
 		}
@@ -139,11 +157,11 @@ func c05RunExprs(c *Case, exprs []c05Expr) {
 		c.NonTrivial(x.key)
 		c.Count("expressions")
 		stm := append(append([]Stmt{}, x.setup...), Pr(S("#"+x.id), &Paren{X: x.e}))
-		solo := &Program{Items: []any{c05Fn(), &Rule{Kind: "pattern", Body: &Block{Stmts: stm}}}}
+		solo := &Program{Items: c05Items(stm)}
 		mo := RunModel(solo, []MInput{{Name: "in.json", Values: []any{anyDoc(doc)}}}, nil, ModelOpts{})
 		if mo.Class != "ok" || mo.Pinned() {
 			// predicted error (or pinned): run alone, preceded by a print so the prefix rule is armed
-			p := &Program{Items: []any{c05Fn(), &Rule{Kind: "pattern", Body: &Block{Stmts: append([]Stmt{Pr(S("pre"))}, stm...)}}}}
+			p := &Program{Items: c05Items(append([]Stmt{Pr(S("pre"))}, stm...))}
 			c.Count("predicted_" + mo.Class)
 			m2(c, &M2Case{Prog: p, Files: []InFile{{Name: "in.json", Data: docBytes(doc)}}, Budget: 50000, Desc: "operator " + x.id})
 			continue
@@ -168,7 +186,7 @@ func c05Cases(tier string) int {
 	if tier == "thorough" {
 		n += 4000
 	} else {
-		n += 150
+		n += 1500
 	}
 	return n
 }
@@ -213,15 +231,25 @@ func c05Run(c *Case) {
 		op := c05BinOps[i/len(c05Grid)]
 		l := c05Grid[i%len(c05Grid)]
 		for ri, r := range c05Grid {
-			for mode := 0; mode < 3; mode++ {
+			for mode := 0; mode < 4; mode++ {
 				x := c05Expr{doc: map[string]any{}}
 				ln, rn := fmt.Sprintf("l%d_%d", ri, mode), fmt.Sprintf("r%d_%d", ri, mode)
-				le, ok1 := supply(l, mode, ln, &x.setup, x.doc)
-				re, ok2 := supply(r, mode, rn, &x.setup, x.doc)
+				sm := mode
+				if mode == 3 {
+					sm = 0
+					if l.kind == "function" || l.kind == "native" || l.kind == "unset" || r.kind == "function" || r.kind == "native" || r.kind == "unset" {
+						continue // cannot be passed as arguments
+					}
+				}
+				le, ok1 := supply(l, sm, ln, &x.setup, x.doc)
+				re, ok2 := supply(r, sm, rn, &x.setup, x.doc)
 				if !ok1 || !ok2 {
 					continue
 				}
 				x.e = Bin(op, le, re)
+				if mode == 3 {
+					x.e = CallE(V(fmt.Sprintf("opf%d", i/len(c05Grid))), le, re)
+				}
 				x.id = fmt.Sprintf("%s|%s|%s|m%d", l.name, op, r.name, mode)
 				x.key = x.id
 				c.Count("op:" + op)
